@@ -377,3 +377,15 @@ def c17(run):
     run.validate("Trace_Amount", trace)
     return finish(run, assumptions=["a float64 is its IEEE-754 decomposition (sign, 53-bit significand, exponent) logged by the harness; all rounding is recomputed exactly on limb naturals",
                                     "the space (all doubles with |f*1e8| < 2^62, all amounts up to 2.1e15) is explored structurally and randomly, not exhaustively"])
+
+
+# --------------------------------------------------------------------------- C19
+@prop("C19", "Trace_CoinSet")
+def c19(run):
+    run.build()
+    run.mc("MC_CoinSet", "MC_CoinSet.cfg")
+    cases = run.gen("MC_CoinSet", "Gen_CoinSet.cfg", env={"GEN_DEPTH": "6" if run.tier == "thorough" else "5"})
+    trace, _ = run.exec("C19", cases=cases)
+    run.validate("Trace_CoinSet", trace)
+    return finish(run, assumptions=["coins are identified by pointer identity among the offered list",
+                                    "for the min-priority selector only successful selections are constrained (the property states no completeness for it)"])
